@@ -1570,6 +1570,21 @@ impl<'a> Gen<'a> {
             };
             rs.push(r);
         }
+        // generation filter (register aliasing, C01/C03 territory, see requests/C18.md): a map pattern
+        // matched against a LOCAL that one of its own entries rebinds reads the later keys from the
+        // already overwritten register (`{a as m, b} = m` → "'b' not found in the 'number' module")
+        let map_bound: Vec<Name> = ts
+            .iter()
+            .filter_map(|t| if let Target::Map(es) = t { Some(es.iter().filter_map(|e| e.target).collect::<Vec<_>>()) } else { None })
+            .flatten()
+            .collect();
+        for r in rs.iter_mut() {
+            if let Rhs::Ref(k) = r {
+                if map_bound.contains(k) {
+                    *r = Rhs::Lit(self.rng.range(-3, 40));
+                }
+            }
+        }
         Act::Pat(exp, ts, rs)
     }
 
